@@ -464,8 +464,11 @@ class C20(Prop):
         "AwProofs.C20.leaf_of_merge",
         "AwProofs.C20.tables_of_merge",
         "AwProofs.C20.user_file_untouched",
+        "AwProofs.C20.load_with_user_file",
+        "AwProofs.C20.load_without_file",
         "AwProofs.C20.merge_skeleton_id",
         "AwProofs.C20.first_run_identity",
+        "AwProofs.C20.first_run_stable",
     ]
     WORKERS = 8
     TRUSTED = [
